@@ -581,6 +581,12 @@ class PowerMethod(Contract):
         jx = fresh('jx')
         yield 'state-dimension>=2', z3.Exists([jx], z3.And(0 <= jx, jx < d, lst_get(op.row_dims, jx) >= 2))
 
+
+    def on_scalar_product(self, ex, state, left, right, line):
+        ct = left.__dict__.get('conjT')
+        ex.ctx.oblige(state, 'sesquilinear-inner-product', line, z3.BoolVal(ct is True),
+                      'the bra of this inner product is %s' % ('a plain (not conjugated) transpose' if ct is False else 'not a conjugate transpose'))
+
     def vec_ok(self, t, op):
         d = zi(op.order)
         return z3.And(zi(t.order) == d, valid(t), same_ints(t.row_dims, op.col_dims, d), FA(0, d, lambda j: lst_get(t.col_dims, j) == 1), boundary_one(t))
